@@ -59,6 +59,13 @@ module Pos =
   | Coq_xO p -> Coq_xI (pred_double p)
   | Coq_xH -> Coq_xH
 
+  (** val pred_N : positive -> coq_N **)
+
+  let pred_N = function
+  | Coq_xI p -> Npos (Coq_xO p)
+  | Coq_xO p -> Npos (pred_double p)
+  | Coq_xH -> N0
+
   type mask = Pos.mask =
   | IsNul
   | IsPos of positive
@@ -126,6 +133,13 @@ module Pos =
     | Coq_xO p -> Coq_xO (mul p y)
     | Coq_xH -> y
 
+  (** val iter : ('a1 -> 'a1) -> 'a1 -> positive -> 'a1 **)
+
+  let rec iter f x = function
+  | Coq_xI n' -> f (iter f (iter f x n') n')
+  | Coq_xO n' -> iter f (iter f x n') n'
+  | Coq_xH -> f x
+
   (** val compare_cont : comparison -> positive -> positive -> comparison **)
 
   let rec compare_cont r x y =
@@ -162,6 +176,62 @@ module Pos =
     | Coq_xH -> (match q with
                  | Coq_xH -> true
                  | _ -> false)
+
+  (** val coq_Nsucc_double : coq_N -> coq_N **)
+
+  let coq_Nsucc_double = function
+  | N0 -> Npos Coq_xH
+  | Npos p -> Npos (Coq_xI p)
+
+  (** val coq_Ndouble : coq_N -> coq_N **)
+
+  let coq_Ndouble = function
+  | N0 -> N0
+  | Npos p -> Npos (Coq_xO p)
+
+  (** val coq_land : positive -> positive -> coq_N **)
+
+  let rec coq_land p q =
+    match p with
+    | Coq_xI p0 ->
+      (match q with
+       | Coq_xI q0 -> coq_Nsucc_double (coq_land p0 q0)
+       | Coq_xO q0 -> coq_Ndouble (coq_land p0 q0)
+       | Coq_xH -> Npos Coq_xH)
+    | Coq_xO p0 ->
+      (match q with
+       | Coq_xI q0 -> coq_Ndouble (coq_land p0 q0)
+       | Coq_xO q0 -> coq_Ndouble (coq_land p0 q0)
+       | Coq_xH -> N0)
+    | Coq_xH -> (match q with
+                 | Coq_xO _ -> N0
+                 | _ -> Npos Coq_xH)
+
+  (** val coq_lxor : positive -> positive -> coq_N **)
+
+  let rec coq_lxor p q =
+    match p with
+    | Coq_xI p0 ->
+      (match q with
+       | Coq_xI q0 -> coq_Ndouble (coq_lxor p0 q0)
+       | Coq_xO q0 -> coq_Nsucc_double (coq_lxor p0 q0)
+       | Coq_xH -> Npos (Coq_xO p0))
+    | Coq_xO p0 ->
+      (match q with
+       | Coq_xI q0 -> coq_Nsucc_double (coq_lxor p0 q0)
+       | Coq_xO q0 -> coq_Ndouble (coq_lxor p0 q0)
+       | Coq_xH -> Npos (Coq_xI p0))
+    | Coq_xH ->
+      (match q with
+       | Coq_xI q0 -> Npos (Coq_xO q0)
+       | Coq_xO q0 -> Npos (Coq_xI q0)
+       | Coq_xH -> N0)
+
+  (** val shiftl : positive -> coq_N -> positive **)
+
+  let shiftl p = function
+  | N0 -> p
+  | Npos n0 -> iter (fun x -> Coq_xO x) p n0
 
   (** val iter_op : ('a1 -> 'a1 -> 'a1) -> positive -> 'a1 -> 'a1 **)
 
